@@ -68,6 +68,14 @@ Theorem decode_spec : forall b, decode_url b = Ok (unescape b).
 Proof. exact decode_spec_proof. Qed.
 Print Assumptions decode_spec.
 
+(* ... and it equals QueryUnescape wherever that succeeds, QueryUnescape being the reference
+   "every '%' is followed by two hex digits, else error" (the real net/url function is compared by
+   the Go oracle). *)
+Theorem decode_agrees_queryunescape :
+  forall b r, query_unescape b = Some r -> decode_url b = Ok r.
+Proof. exact decode_agrees_queryunescape_proof. Qed.
+Print Assumptions decode_agrees_queryunescape.
+
 (* DecodeURL inverts EncodeURL with the standard URL table (which marks '%' and '+': a fact about
    the generated table). *)
 Theorem decode_encode_url :
@@ -89,6 +97,14 @@ Theorem datauri_table_plus_refuted :
     exists r, encode_url b Tables.datauri_encoding_table = Ok r /\ decode_url r <> Ok b.
 Proof. exact datauri_table_plus_refuted_proof. Qed.
 Print Assumptions datauri_table_plus_refuted.
+
+Theorem no_panic_url :
+  forall b, Forall is_byte b ->
+    (exists r, encode_url b Tables.url_encoding_table = Ok r) /\
+    (exists r, encode_url b Tables.datauri_encoding_table = Ok r) /\
+    (exists r, decode_url b = Ok r).
+Proof. exact no_panic_url_proof. Qed.
+Print Assumptions no_panic_url.
 
 (* ---- DataURI ------------------------------------------------------------------------------------------- *)
 (* The model of base64.StdEncoding.Decode inverts the RFC 4648 encoder on arbitrary bytes. *)
@@ -133,6 +149,11 @@ Theorem datauri_bad_iff :
 Proof. exact datauri_total_proof. Qed.
 Print Assumptions datauri_bad_iff.
 
+Theorem no_panic_datauri :
+  forall b64dec b, Forall is_byte b -> exists r, data_uri b64dec b = Ok r.
+Proof. exact no_panic_datauri_proof. Qed.
+Print Assumptions no_panic_datauri.
+
 (* The two deviations from the property text that the Go oracle reports as findings, on the model:
    a literal '+' (which DataURIEncodingTable leaves alone) becomes a space; a parameter VALUE that
    reads "base64" is taken for the ;base64 marker. *)
@@ -157,6 +178,19 @@ Theorem mediatype_agrees_partial :
     end.
 Proof. exact mediatype_no_panic_proof. Qed.
 Print Assumptions mediatype_agrees_partial.
+
+Theorem no_panic_mediatype : forall b, exists r, mediatype b = Ok r.
+Proof. exact no_panic_mediatype_proof. Qed.
+Print Assumptions no_panic_mediatype.
+
+(* On well-formed unquoted values without optional spaces -- a mimetype of at least three bytes
+   without ';' and ' ', then n >= 1 parameters ";key=value" whose keys and values contain none of
+   ; = space -- Mediatype returns the mimetype and exactly these pairs (most recent first). *)
+Theorem mediatype_wellformed :
+  forall ty kv ps, 3 <= len ty -> Forall (fun c => c <> 59 /\ c <> 32) ty -> Forall kv_token (kv :: ps) ->
+    mediatype (ty ++ render (kv :: ps)) = Ok (0, len ty, Some (rev (kv :: ps))).
+Proof. exact mediatype_wellformed_proof. Qed.
+Print Assumptions mediatype_wellformed.
 
 (* ---- hash tables -------------------------------------------------------------------------------------- *)
 (* Both generated tables are perfect: every Hash constant has a non-empty text and ToHash maps
